@@ -639,3 +639,599 @@ Proof.
   destruct (is_true b); [rewrite <- EV; apply J0; assumption|].
   apply safe_bind; [apply verify_signature_safe; assumption|]. intros [] _; [exact I | reflexivity].
 Qed.
+
+(* ---------------- JWE: registry ---------------- *)
+Lemma jwe_check_algorithm_spec g reg names name :
+  g_algstr_jwe g = true ->
+  match jwe_check_algorithm g reg names name with
+  | Ok _ => exists s, name = PStr s /\ existsb (fun n => str_eqb (SK n) s) names = true
+  | Err e => e = EJose UnsupportedAlgorithmError
+  end.
+Proof.
+  intro G. unfold jwe_check_algorithm. rewrite G.
+  destruct name; cbn [is_str negb andb]; try reflexivity.
+  cbn [name_in_table bind].
+  destruct (existsb (fun n => str_eqb (SK n) s) names) eqn:E; cbn [negb]; [|reflexivity].
+  destruct (allowed_name _ _ _); [eauto | reflexivity].
+Qed.
+
+Lemma jwe_get_spec {A} g reg (nm : A -> string) (tbl : list A) name :
+  g_algstr_jwe g = true ->
+  match (do _ <- jwe_check_algorithm g reg (map nm tbl) name; find_by_name nm tbl name) with
+  | Ok row => In row tbl
+  | Err e => e = EJose UnsupportedAlgorithmError
+  end.
+Proof.
+  intro G. pose proof (jwe_check_algorithm_spec g reg (map nm tbl) name G) as C.
+  destruct (jwe_check_algorithm g reg (map nm tbl) name) as [u|e]; cbn [bind]; [|exact C].
+  destruct C as [s [Es Ex]]. subst name. unfold find_by_name.
+  destruct (existsb_find nm tbl s Ex) as [r F]. rewrite F. apply find_some in F. tauto.
+Qed.
+
+Lemma jwe_get_alg_spec g reg name : g_algstr_jwe g = true ->
+  match jwe_get_alg g reg name with Ok row => In row jwe_alg_table | Err e => e = EJose UnsupportedAlgorithmError end.
+Proof. apply jwe_get_spec. Qed.
+Lemma jwe_get_enc_safe g reg name : g_algstr_jwe g = true -> safe (jwe_get_enc g reg name).
+Proof.
+  intro G. pose proof (jwe_get_spec g reg ee_name jwe_enc_table name G) as X. unfold jwe_get_enc.
+  destruct (do _ <- _; _); [exact I | subst; reflexivity].
+Qed.
+Lemma jwe_get_zip_safe g reg name : g_algstr_jwe g = true -> safe (jwe_get_zip g reg name).
+Proof.
+  intro G. pose proof (jwe_get_spec g reg ez_name jwe_zip_table name G) as X. unfold jwe_get_zip.
+  destruct (do _ <- _; _); [exact I | subst; reflexivity].
+Qed.
+
+(* table facts about the registered key-management algorithms *)
+Definition has_param (l : list hparam) (name : string) (is_kind : vkind -> bool) (req : bool) : bool :=
+  existsb (fun p => String.eqb (hp_name p) name && is_kind (hp_kind p) && Bool.eqb (hp_required p) req) l.
+Definition is_VStr k := match k with VStr => true | _ => false end.
+Definition is_VInt k := match k with VInt => true | _ => false end.
+Definition is_VJwk k := match k with VJwk => true | _ => false end.
+
+Definition row_ok (r : jwe_alg_row) : bool :=
+  known_family (ea_family r) && hreg_wf (ea_more r) &&
+  (if String.eqb (ea_family r) "ECDHES"
+   then has_param (ea_more r) "epk" is_VJwk true && has_param (ea_more r) "apu" is_VStr false
+        && has_param (ea_more r) "apv" is_VStr false
+   else if String.eqb (ea_family r) "PBES2"
+   then has_param (ea_more r) "p2s" is_VStr true && has_param (ea_more r) "p2c" is_VInt true
+   else if String.eqb (ea_family r) "AESGCMKW"
+   then has_param (ea_more r) "iv" is_VStr true && has_param (ea_more r) "tag" is_VStr true
+   else true).
+
+Lemma jwe_table_ok : forallb row_ok jwe_alg_table = true.
+Proof. vm_compute. reflexivity. Qed.
+
+Lemma row_ok_In r : In r jwe_alg_table -> row_ok r = true.
+Proof. intro I. pose proof jwe_table_ok as T. rewrite forallb_forall in T. apply T. exact I. Qed.
+
+Lemma has_param_In l name is_kind req :
+  has_param l name is_kind req = true ->
+  exists k, In {| hp_name := name; hp_kind := k; hp_required := req |} l /\ is_kind k = true.
+Proof.
+  unfold has_param. intro H. apply existsb_exists in H. destruct H as [p [I H]].
+  apply andb_true_iff in H. destruct H as [H R]. apply andb_true_iff in H. destruct H as [N K].
+  apply String.eqb_eq in N. apply Bool.eqb_prop in R. destruct p as [n k r]. simpl in *. subst. eauto.
+Qed.
+
+(* a validated optional str member is absent or a str *)
+Lemma validated_opt_str more d cr name :
+  validate_registry_header more (PDict d) cr = Ok tt -> has_param more name is_VStr false = true ->
+  exists v, py_get_str (PDict d) (SK name) = Ok v /\ (v = PNone \/ is_str v = true).
+Proof.
+  intros V H. destruct (has_param_In _ _ _ _ H) as [k [I K]]. destruct k; try discriminate.
+  pose proof (vrh_member _ _ _ _ _ _ V I) as M. cbn [py_get_str].
+  destruct (dget d (SK name)) as [v|]; [|eauto].
+  exists v. split; [reflexivity|]. right. cbn [validate_kind] in M. destruct (is_str v); [reflexivity | discriminate].
+Qed.
+
+Lemma validated_req more d name is_kind :
+  validate_registry_header more (PDict d) true = Ok tt -> has_param more name is_kind true = true ->
+  exists k v, is_kind k = true /\ dget d (SK name) = Some v /\ validate_kind k v = Ok tt.
+Proof.
+  intros V H. destruct (has_param_In _ _ _ _ H) as [k [I K]].
+  pose proof (vrh_member _ _ _ _ _ _ V I) as M.
+  destruct (dget d (SK name)) as [v|]; [eauto | discriminate].
+Qed.
+
+Lemma jwe_check_header_spec g reg d :
+  g_crit g = true -> g_algstr_jwe g = true -> jwe_reg_wf reg = true ->
+  match jwe_check_header g reg (PDict d) true with
+  | Ok _ => exists s row, dget d (SK "alg") = Some (PStr s) /\ jwe_get_alg g reg (PStr s) = Ok row /\
+                          In row jwe_alg_table /\
+                          validate_registry_header (ea_more row) (PDict d) true = Ok tt
+  | Err e => allowed_exn e = true
+  end.
+Proof.
+  intros G1 G2 W. apply andb_true_iff in W. destruct W as [W1 W2].
+  unfold jwe_check_header.
+  pose proof (check_crit_only g d G1) as C.
+  destruct (check_crit_header g (PDict d)) as [u|e]; cbn [bind]; [|rewrite (C e eq_refl); reflexivity].
+  pose proof (vrh_safe (er_hreg reg) d true W1) as V.
+  destruct (validate_registry_header (er_hreg reg) (PDict d) true) as [[]|e] eqn:EV; cbn [bind];
+    [|rewrite (V e eq_refl); reflexivity].
+  destruct (vrh_required_str _ _ _ EV W2) as [s Ds]. rewrite (getitem_of_dget _ _ _ Ds). cbn [bind].
+  pose proof (jwe_get_alg_spec g reg (PStr s) G2) as A.
+  destruct (jwe_get_alg g reg (PStr s)) as [row|e] eqn:EA; cbn [bind]; [|subst; reflexivity].
+  pose proof (row_ok_In row A) as RO. unfold row_ok in RO.
+  apply andb_true_iff in RO. destruct RO as [RO _]. apply andb_true_iff in RO. destruct RO as [_ WM].
+  destruct (ea_more row) as [|m0 mr] eqn:EM.
+  - assert (X : safe (if er_strict reg then check_supported_header (er_hreg reg) (PDict d) else Ok tt)).
+    { destruct (er_strict reg); [apply only_value_safe, check_supported_only | exact I]. }
+    destruct (if er_strict reg then _ else _) as [[]|e]; [|exact X].
+    exists s, row. rewrite EM. repeat split; auto.
+  - pose proof (vrh_safe (m0 :: mr) d true WM) as V2.
+    destruct (validate_registry_header (m0 :: mr) (PDict d) true) as [[]|e] eqn:EV2; cbn [bind];
+      [|rewrite (V2 e eq_refl); reflexivity].
+    assert (X : safe (if er_strict reg then check_supported_header (er_hreg reg ++ m0 :: mr) (PDict d) else Ok tt)).
+    { destruct (er_strict reg); [apply only_value_safe, check_supported_only | exact I]. }
+    destruct (if er_strict reg then _ else _) as [[]|e]; [|exact X].
+    exists s, row. rewrite EM. repeat split; auto.
+Qed.
+
+(* ---------------- JWE: embedded key import ---------------- *)
+Lemma choice_mem_str cs v : choice_mem cs v = true -> exists c, In c cs /\ v = PStr (asc c).
+Proof.
+  unfold choice_mem. intro H. apply existsb_exists in H. destruct H as [c [I E]].
+  exists c. split; [exact I|]. destruct v; try discriminate. cbn [py_eq] in E.
+  apply str_eqb_eq in E. subst. reflexivity.
+Qed.
+
+(* table facts of the JWK registries *)
+Lemma jwk_regs_wf :
+  hreg_wf (map kp_as_h jwk_parameter_registry) = true /\
+  hreg_wf (map kp_as_h value_registry_EC) = true /\ hreg_wf (map kp_as_h value_registry_OKP) = true.
+Proof. vm_compute. auto. Qed.
+
+Definition use_choices_ok : bool :=
+  existsb (fun p => String.eqb (hp_name p) "use" &&
+                    match hp_kind p with
+                    | VChoices cs => forallb (fun c => existsb (fun q => String.eqb (fst q) c) use_key_ops_registry) cs
+                    | _ => false
+                    end) (map kp_as_h jwk_parameter_registry) &&
+  (* "use" and "key_ops" are registered exactly once, with a choice validator *)
+  forallb (fun p => if String.eqb (hp_name p) "use" || String.eqb (hp_name p) "key_ops"
+                    then match hp_kind p with VChoices _ => true | _ => false end else true)
+          (map kp_as_h jwk_parameter_registry) &&
+  existsb (fun p => String.eqb (hp_name p) "key_ops") (map kp_as_h jwk_parameter_registry).
+Lemma use_choices_fact : use_choices_ok = true.
+Proof. vm_compute. reflexivity. Qed.
+
+Lemma find_use_some us cs :
+  forallb (fun c => existsb (fun q => String.eqb (fst q) c) use_key_ops_registry) cs = true ->
+  choice_mem cs (PStr us) = true ->
+  exists p, find (fun p : string * list string => str_eqb (SK (fst p)) us) use_key_ops_registry = Some p.
+Proof.
+  intros F C. destruct (choice_mem_str _ _ C) as [c [I E]]. inversion E; subst.
+  rewrite forallb_forall in F. specialize (F c I). apply existsb_exists in F. destruct F as [q [Iq Eq]].
+  apply String.eqb_eq in Eq. subst c.
+  destruct (find (fun p : string * list string => str_eqb (asc (fst p)) (asc (fst q))) use_key_ops_registry) eqn:Fd; [eauto|].
+  pose proof (find_none _ _ Fd q Iq) as N. cbn beta in N. rewrite str_eqb_refl in N. discriminate.
+Qed.
+
+Lemma ops_loop_only l ops : only_value (ops_loop l ops).
+Proof. induction l as [|o r IH]; intros e H; cbn [ops_loop] in H; [discriminate|]. destruct (choice_mem ops o); [eapply IH; eauto | congruence]. Qed.
+
+Lemma validate_use_ops_only g d :
+  g_use_str g = true ->
+  validate_registry_header (map kp_as_h jwk_parameter_registry) (PDict d) true = Ok tt ->
+  only_value (validate_use_ops g (PDict d)).
+Proof.
+  intros G V e H. unfold validate_use_ops in H. rewrite !py_in_dict in H. cbn [bind] in H.
+  destruct (dmem d (SK "use")) eqn:Mu; destruct (dmem d (SK "key_ops")) eqn:Mk; cbn [andb] in H; try discriminate.
+  destruct (getitem_dict_mem _ _ Mu) as [u [Gu Du]]. rewrite Gu in H. cbn [bind] in H. rewrite G in H.
+  destruct u; cbn [is_str negb andb] in H; try congruence.
+  pose proof use_choices_fact as UF. unfold use_choices_ok in UF.
+  apply andb_true_iff in UF. destruct UF as [UF KO]. apply andb_true_iff in UF. destruct UF as [U1 U2].
+  apply existsb_exists in U1. destruct U1 as [pu [Iu U1]]. apply andb_true_iff in U1. destruct U1 as [Nu Ku].
+  apply String.eqb_eq in Nu. destruct pu as [nu ku ru]. cbn [hp_name hp_kind] in *. subst nu.
+  destruct ku; try discriminate.
+  pose proof (vrh_member _ _ _ _ _ _ V Iu) as M. rewrite Du in M. cbn [validate_kind] in M.
+  destruct (choice_mem l (PStr s)) eqn:CM; [|discriminate].
+  destruct (find_use_some s l Ku CM) as [[un ops] F]. rewrite F in H.
+  destruct (getitem_dict_mem _ _ Mk) as [ko [Gk Dk]]. rewrite Gk in H. cbn [bind] in H.
+  apply existsb_exists in KO. destruct KO as [pk [Ik Nk]]. apply String.eqb_eq in Nk.
+  rewrite forallb_forall in U2. pose proof (U2 pk Ik) as Kk. destruct pk as [nk kk rk]. cbn [hp_name hp_kind] in *. subst nk.
+  rewrite String.eqb_refl, orb_true_r in Kk. destruct kk; try discriminate.
+  pose proof (vrh_member _ _ _ _ _ _ V Ik) as M2. rewrite Dk in M2. cbn [validate_kind] in M2.
+  destruct ko; try (destruct (choice_mem l0 _) eqn:C2; [destruct (choice_mem_str _ _ C2) as [c [_ Ec]]; discriminate | discriminate]).
+  - cbn [py_iter bind] in H. eapply ops_loop_only; eauto.
+  - cbn [py_iter bind] in H. eapply ops_loop_only; eauto.
+Qed.
+
+Lemma validate_dict_key_only g vreg d :
+  g_use_str g = true -> hreg_wf (map kp_as_h vreg) = true -> only_value (validate_dict_key g vreg (PDict d)).
+Proof.
+  intros G W e H. unfold validate_dict_key in H. destruct jwk_regs_wf as [W0 _].
+  pose proof (vrh_safe _ d true W0) as V1.
+  destruct (validate_registry_header (map kp_as_h jwk_parameter_registry) (PDict d) true) as [[]|e1] eqn:E1;
+    cbn [bind] in H; [|inversion H; subst; apply V1; reflexivity].
+  pose proof (vrh_safe _ d true W) as V2.
+  destruct (validate_registry_header (map kp_as_h vreg) (PDict d) true) as [[]|e2] eqn:E2;
+    cbn [bind] in H; [|inversion H; subst; apply V2; reflexivity].
+  eapply validate_use_ops_only; eauto.
+Qed.
+
+Lemma import_epk_safe g rk epk :
+  g_use_str g = true -> g_crv_ec g = true -> g_crv_okp g = true -> is_dict epk = true ->
+  safe (import_epk g P rk epk).
+Proof.
+  intros G1 G2 G3 D. destruct epk; try discriminate. unfold import_epk.
+  destruct jwk_regs_wf as [_ [WE WO]].
+  set (vreg := if String.eqb (k_kty rk) "EC" then value_registry_EC else value_registry_OKP).
+  assert (WV : hreg_wf (map kp_as_h vreg) = true) by (unfold vreg; destruct (String.eqb (k_kty rk) "EC"); assumption).
+  apply safe_bind; [apply only_value_safe, validate_dict_key_only; assumption|]. intros [] Hv.
+  unfold validate_dict_key in Hv. inv_bind Hv. inv_bind Hv. destruct a, a0.
+  (* "crv" is a required str of both value registries *)
+  assert (Hc : exists s, dget d (SK "crv") = Some (PStr s)).
+  { eapply vrh_required_str; [exact Ha0|]. unfold vreg. destruct (String.eqb (k_kty rk) "EC"); vm_compute; reflexivity. }
+  destruct Hc as [s Ds]. rewrite (getitem_of_dget _ _ _ Ds). cbn [bind].
+  destruct (negb _) eqn:Kn.
+  - destruct (String.eqb (k_kty rk) "EC"); [rewrite G2 | rewrite G3]; reflexivity.
+  - apply safe_bind; [apply H_import|]. intros k _.
+    apply safe_bind; [apply only_value_safe, validate_dict_key_only; assumption|]. intros _ _. exact I.
+Qed.
+
+(* ---------------- JWE: derive_key ---------------- *)
+Lemma u32be_len_safe s b : s = PNone \/ is_str s = true -> safe (u32be_len_input s b).
+Proof.
+  intros [E | E]; [subst; exact I|]. destruct s; try discriminate. unfold u32be_len_input.
+  destruct (negb (py_truth (PStr s))); [exact I|].
+  apply safe_bind; [|intros; exact I].
+  destruct b; [apply safe_bind; [apply to_bytes_str_safe | intros; apply b64d_safe] | apply to_bytes_str_safe].
+Qed.
+
+Lemma derive_key_safe shared d cek ks more sa se :
+  validate_registry_header more (PDict d) true = Ok tt ->
+  has_param more "apu" is_VStr false = true -> has_param more "apv" is_VStr false = true ->
+  dget d (SK "alg") = Some (PStr sa) -> dget d (SK "enc") = Some (PStr se) ->
+  safe (derive_key_for_concat_kdf P shared (PDict d) cek ks).
+Proof.
+  intros V Hu Hv Da De. unfold derive_key_for_concat_kdf.
+  destruct (validated_opt_str _ _ _ _ V Hu) as [u [Eu Pu]]. rewrite Eu. cbn [bind].
+  apply safe_bind; [apply u32be_len_safe; exact Pu|]. intros apu _.
+  destruct (validated_opt_str _ _ _ _ V Hv) as [v [Ev Pv]]. rewrite Ev. cbn [bind].
+  apply safe_bind; [apply u32be_len_safe; exact Pv|]. intros apv _.
+  assert (X : exists sx, py_getitem_str (PDict d) (SK match ks with Some _ => "alg" | None => "enc" end) = Ok (PStr sx)).
+  { destruct ks; [exists sa; apply getitem_of_dget; exact Da | exists se; apply getitem_of_dget; exact De]. }
+  destruct X as [sx Ex]. rewrite Ex. cbn [bind].
+  apply safe_bind; [apply u32be_len_safe; right; reflexivity|]. intros alg_id _. apply H_kdf.
+Qed.
+
+Lemma key_type_in_safe k l : safe (key_type_in k l).
+Proof. unfold key_type_in. destruct (existsb _ l); [exact I | reflexivity]. Qed.
+
+Lemma decrypt_agreed_safe g alg enc d r sa se :
+  g_use_str g = true -> g_crv_ec g = true -> g_crv_okp g = true ->
+  ea_family alg = "ECDHES"%string -> row_ok alg = true ->
+  validate_registry_header (ea_more alg) (PDict d) true = Ok tt ->
+  dget d (SK "alg") = Some (PStr sa) -> dget d (SK "enc") = Some (PStr se) ->
+  safe (decrypt_agreed_upon_key g P alg enc (PDict d) r).
+Proof.
+  intros G1 G2 G3 F RO V Da De. unfold row_ok in RO. rewrite F in RO. cbn [String.eqb Ascii.eqb Bool.eqb] in RO.
+  apply andb_true_iff in RO. destruct RO as [_ RO]. apply andb_true_iff in RO. destruct RO as [RO Hv].
+  apply andb_true_iff in RO. destruct RO as [He Hu].
+  destruct (validated_req _ _ _ _ V He) as [k [epk [Kk [Depk Vk]]]]. destruct k; try discriminate.
+  unfold decrypt_agreed_upon_key. rewrite py_in_dict. cbn [bind].
+  rewrite (dmem_of_dget _ _ _ Depk). cbn [assert_ bind].
+  apply safe_bind; [apply key_type_in_safe|]. intros _ _.
+  rewrite (getitem_of_dget _ _ _ Depk). cbn [bind].
+  cbn [validate_kind] in Vk. destruct (is_dict epk) eqn:ID; [|discriminate].
+  apply safe_bind; [apply import_epk_safe; assumption|]. intros ek _.
+  apply safe_bind; [apply H_exchange|]. intros shared _.
+  eapply derive_key_safe; eauto.
+Qed.
+
+Lemma pbes2_safe g alg d r ek :
+  g_p2c g = true -> ea_family alg = "PBES2"%string -> row_ok alg = true ->
+  validate_registry_header (ea_more alg) (PDict d) true = Ok tt -> rc_ek r = Some ek ->
+  safe (pbes2_decrypt_cek g P alg (PDict d) r).
+Proof.
+  intros G F RO V EK. unfold row_ok in RO. rewrite F in RO. cbn [String.eqb Ascii.eqb Bool.eqb] in RO.
+  apply andb_true_iff in RO. destruct RO as [_ RO]. apply andb_true_iff in RO. destruct RO as [Hs Hc].
+  destruct (validated_req _ _ _ _ V Hs) as [k1 [p2s [K1 [D1 V1]]]]. destruct k1; try discriminate.
+  destruct (validated_req _ _ _ _ V Hc) as [k2 [p2c [K2 [D2 V2]]]]. destruct k2; try discriminate.
+  unfold pbes2_decrypt_cek. rewrite !py_in_dict. cbn [bind].
+  rewrite (dmem_of_dget _ _ _ D1). cbn [assert_ bind]. rewrite (dmem_of_dget _ _ _ D2). cbn [assert_ bind].
+  rewrite (getitem_of_dget _ _ _ D1). cbn [bind].
+  cbn [validate_kind] in V1. destruct p2s; try discriminate.
+  apply safe_bind; [apply to_bytes_str_safe|]. intros p2sb _.
+  apply safe_bind; [apply b64d_safe|]. intros salt _.
+  rewrite (getitem_of_dget _ _ _ D2). cbn [bind].
+  apply safe_bind; [apply key_type_in_safe|]. intros _ _.
+  cbn [validate_kind] in V2. destruct p2c; try discriminate.
+  apply safe_bind.
+  { rewrite G. cbn [andb]. destruct ((1 <=? z)%Z && (z <=? 2147483647)%Z) eqn:R; cbn [negb]; [|reflexivity].
+    apply H_pbkdf2. apply andb_true_iff in R. destruct R as [R1 R2]. apply Z.leb_le in R1. apply Z.leb_le in R2. lia. }
+  intros kek _. unfold ek_or_assert. rewrite EK. cbn [bind]. apply H_unwrap.
+Qed.
+
+Lemma gcmkw_safe alg d r ek :
+  ea_family alg = "AESGCMKW"%string -> row_ok alg = true ->
+  validate_registry_header (ea_more alg) (PDict d) true = Ok tt -> rc_ek r = Some ek ->
+  safe (gcmkw_decrypt_cek P alg (PDict d) r).
+Proof.
+  intros F RO V EK. unfold row_ok in RO. rewrite F in RO. cbn [String.eqb Ascii.eqb Bool.eqb] in RO.
+  apply andb_true_iff in RO. destruct RO as [_ RO]. apply andb_true_iff in RO. destruct RO as [Hi Ht].
+  destruct (validated_req _ _ _ _ V Hi) as [k1 [iv [K1 [D1 V1]]]]. destruct k1; try discriminate.
+  destruct (validated_req _ _ _ _ V Ht) as [k2 [tg [K2 [D2 V2]]]]. destruct k2; try discriminate.
+  unfold gcmkw_decrypt_cek.
+  apply safe_bind; [apply key_type_in_safe|]. intros _ _.
+  rewrite !py_in_dict. cbn [bind].
+  rewrite (dmem_of_dget _ _ _ D1). cbn [assert_ bind]. rewrite (dmem_of_dget _ _ _ D2). cbn [assert_ bind].
+  rewrite (getitem_of_dget _ _ _ D1). cbn [bind].
+  cbn [validate_kind] in V1, V2. destruct iv; try discriminate. destruct tg; try discriminate.
+  apply safe_bind; [apply to_bytes_str_safe|]. intros ivb _.
+  apply safe_bind; [apply b64d_safe|]. intros ivd _.
+  rewrite (getitem_of_dget _ _ _ D2). cbn [bind].
+  apply safe_bind; [apply to_bytes_str_safe|]. intros tgb _.
+  apply safe_bind; [apply b64d_safe|]. intros tgd _.
+  unfold ek_or_assert. rewrite EK. cbn [bind]. apply H_gcmkw.
+Qed.
+
+Lemma decrypt_recipient_safe g alg enc d r ek sa se :
+  g_use_str g = true -> g_crv_ec g = true -> g_crv_okp g = true -> g_p2c g = true ->
+  In alg jwe_alg_table ->
+  validate_registry_header (ea_more alg) (PDict d) true = Ok tt -> rc_ek r = Some ek ->
+  dget d (SK "alg") = Some (PStr sa) -> dget d (SK "enc") = Some (PStr se) ->
+  safe (decrypt_recipient g P alg enc (PDict d) r).
+Proof.
+  intros G1 G2 G3 G4 I V EK Da De. pose proof (row_ok_In alg I) as RO.
+  pose proof RO as RO'. unfold row_ok in RO'. apply andb_true_iff in RO'. destruct RO' as [RO' _].
+  apply andb_true_iff in RO'. destruct RO' as [KF _].
+  unfold decrypt_recipient. rewrite KF. cbn [negb].
+  destruct (ea_direct alg).
+  - rewrite EK. destruct ek; [|reflexivity].
+    destruct (String.eqb (ea_family alg) "ECDHES") eqn:F.
+    + apply String.eqb_eq in F. eapply decrypt_agreed_safe; eauto.
+    + apply safe_bind; [apply key_type_in_safe|]. intros _ _. apply H_dir.
+  - destruct (String.eqb (ea_family alg) "ECDHES") eqn:F.
+    + apply String.eqb_eq in F. apply safe_bind; [eapply decrypt_agreed_safe; eauto|]. intros auk _.
+      unfold ek_or_assert. rewrite EK. cbn [bind]. apply H_unwrap.
+    + destruct (String.eqb (ea_family alg) "PBES2") eqn:F2.
+      * apply String.eqb_eq in F2. eapply pbes2_safe; eauto.
+      * destruct (String.eqb (ea_family alg) "AESGCMKW") eqn:F3.
+        -- apply String.eqb_eq in F3. eapply gcmkw_safe; eauto.
+        -- apply safe_bind; [apply key_type_in_safe|]. intros _ _.
+           unfold ek_or_assert. rewrite EK. cbn [bind]. apply H_decrypt_cek.
+Qed.
+
+(* ---------------- JWE: message.py ---------------- *)
+Lemma recipient_headers_dict json pd u h :
+  hdr_ok u = true -> hdr_ok h = true -> exists d, recipient_headers json (PDict pd) u h = Ok (PDict d).
+Proof.
+  intros A B. unfold recipient_headers. cbn [py_update bind].
+  assert (X : exists b, (if json then update_if_truthy (dupdate [] pd) u else Ok (dupdate [] pd)) = Ok b).
+  { destruct json; [apply update_if_truthy_ok; exact A | eauto]. }
+  destruct X as [b Eb]. rewrite Eb. cbn [bind].
+  destruct (update_if_truthy_ok b h B) as [c Ec]. rewrite Ec. cbn [bind]. eauto.
+Qed.
+
+Definition rec_ok (r : recipient) : Prop := hdr_ok (rc_header r) = true /\ exists ek, rc_ek r = Some ek.
+
+Definition needs_jwe_core (g : guards) : bool :=
+  g_crit g && g_enc_present g && g_algstr_jwe g && g_crv_ec g && g_crv_okp g && g_p2c g && g_zlib g && g_use_str g.
+
+(* the header registry also validates "enc" as a required str *)
+Definition jwe_reg_wf2 (r : jwe_reg) : bool := jwe_reg_wf r && hreg_requires_str (er_hreg r) "enc".
+
+Lemma jwe_check_header_enc g reg d :
+  jwe_reg_wf2 reg = true -> jwe_check_header g reg (PDict d) true = Ok tt ->
+  exists s, dget d (SK "enc") = Some (PStr s).
+Proof.
+  intros W H. apply andb_true_iff in W. destruct W as [_ R].
+  unfold jwe_check_header in H. inv_bind H. inv_bind H. destruct a0. eapply vrh_required_str; eauto.
+Qed.
+
+Lemma recipients_loop_safe g reg o enc l ceks pd :
+  needs_jwe_core g = true -> jwe_reg_wf2 reg = true ->
+  jo_protected o = PDict pd -> hdr_ok (jo_unprotected o) = true -> Forall rec_ok l ->
+  safe (recipients_loop g P reg o enc l ceks).
+Proof.
+  intros N W Pr U F. pose proof W as W2. apply andb_true_iff in W2. destruct W2 as [W1 _].
+  unfold needs_jwe_core in N. repeat (apply andb_true_iff in N; destruct N as [N ?]).
+  revert ceks. induction F as [|r rest [Hh [ek EK]] F IH]; intro ceks; [exact I|].
+  cbn [recipients_loop]. rewrite Pr.
+  destruct (recipient_headers_dict (jo_json o) pd (jo_unprotected o) (rc_header r) U Hh) as [d Ed].
+  rewrite Ed. cbn [bind].
+  pose proof (jwe_check_header_spec g reg d N H4 W1) as C.
+  destruct (jwe_check_header g reg (PDict d) true) as [[]|e] eqn:EC; cbn [bind]; [|exact C].
+  destruct C as [sa [row [Da [GA [IA V]]]]].
+  destruct (jwe_check_header_enc g reg d W EC) as [se De].
+  rewrite (getitem_of_dget _ _ _ Da). cbn [bind]. rewrite GA. cbn [bind].
+  pose proof (decrypt_recipient_safe g row enc d r ek sa se H H3 H2 H1 IA V EK Da De) as DR.
+  destruct (decrypt_recipient g P row enc (PDict d) r) as [cek|e]; [apply IH|].
+  destruct e; try exact DR; try discriminate DR.
+  destruct (er_verify_all reg); [exact DR | apply IH].
+Qed.
+
+Lemma perform_decrypt_safe g reg o pd :
+  needs_jwe_core g = true -> jwe_reg_wf2 reg = true ->
+  jo_protected o = PDict pd -> hdr_ok (jo_unprotected o) = true -> Forall rec_ok (jo_recipients o) ->
+  safe (perform_decrypt g P reg o).
+Proof.
+  intros N W Pr U F. unfold perform_decrypt. apply safe_map_exn. intros e E.
+  assert (X : safe (perform_decrypt_inner g P reg o)).
+  { clear e E. pose proof N as N'. unfold needs_jwe_core in N'. repeat (apply andb_true_iff in N'; destruct N' as [N' ?]).
+    unfold perform_decrypt_inner. rewrite H5, Pr. rewrite py_in_dict. cbn [bind].
+    destruct (dmem pd (SK "enc")) eqn:Me; cbn [negb]; [|reflexivity].
+    destruct (getitem_dict_mem _ _ Me) as [ev [Ge _]]. rewrite Ge. cbn [bind].
+    apply safe_bind; [apply jwe_get_enc_safe; assumption|]. intros enc _.
+    apply safe_bind; [destruct (_ =? _); [exact I | reflexivity]|]. intros _ _.
+    apply safe_bind; [eapply recipients_loop_safe; eauto|]. intros ceks _.
+    destruct ceks as [|cek [|c2 cr]]; try reflexivity.
+    destruct (negb _); [reflexivity|].
+    apply safe_bind; [apply H_enc|]. intros msg _.
+    rewrite py_in_dict. cbn [bind].
+    destruct (dmem pd (SK "zip")) eqn:Mz; [|exact I].
+    destruct (getitem_dict_mem _ _ Mz) as [zv [Gz _]]. rewrite Gz. cbn [bind].
+    apply safe_bind; [apply jwe_get_zip_safe; assumption|]. intros _ _.
+    destruct (p_inflate P msg) as [pt|ei] eqn:EI; [exact I|].
+    destruct (H_inflate _ _ EI); subst; [rewrite H0; reflexivity | reflexivity]. }
+  rewrite E in X. cbn [safe] in X. destruct e; try discriminate X; try reflexivity.
+  destruct c; reflexivity.
+Qed.
+
+Definition needs_jwe_compact (g : guards) : bool := needs_jwe_core g && g_rec_header g && g_dict_jwe_compact g.
+
+Lemma jwe_decrypt_compact_b_safe g reg ka value :
+  needs_jwe_compact g = true -> jwe_reg_wf2 reg = true ->
+  safe (jwe_decrypt_compact_b g P reg ka value).
+Proof.
+  intros N W. apply andb_true_iff in N. destruct N as [N Gd]. apply andb_true_iff in N. destruct N as [N Gr].
+  unfold jwe_decrypt_compact_b.
+  destruct (split_dot value) as [|hs [|eks [|ivs [|cts [|tgs [|x r]]]]]]; try reflexivity.
+  assert (X : match catch_type_value DecodeError
+             (do p <- json_b64decode g P (PBytes hs);
+              do _ <- (if g_dict_jwe_compact g && negb (is_dict p) then Err EValue else Ok tt);
+              do a <- py_in (PS "alg") p;
+              if negb a then Err (EJose MissingAlgorithmError) else
+              do e <- py_in (PS "enc") p;
+              if negb e then Err (EJose MissingEncryptionError) else Ok p) with
+              | Ok p => is_dict p = true | Err e => allowed_exn e = true end).
+  { unfold catch_type_value, map_exn.
+    destruct (json_b64decode g P (PBytes hs)) as [p|e] eqn:J; cbn [bind].
+    - rewrite Gd. destruct p; cbn [is_dict negb andb bind]; try reflexivity.
+      rewrite !py_in_dict. cbn [bind]. destruct (dmem d (SK "alg")); cbn [negb]; [|reflexivity].
+      cbn [bind]. destruct (dmem d (SK "enc")); reflexivity.
+    - rewrite (json_b64decode_only g _ Gr (or_intror (ex_intro _ hs eq_refl)) e J). reflexivity. }
+  destruct (catch_type_value DecodeError _) as [p|e]; cbn [bind]; [|exact X].
+  destruct p as [| | | | | |l|pd]; try discriminate.
+  apply safe_bind; [apply b64d_safe|]. intros iv _.
+  apply safe_bind; [apply b64d_safe|]. intros ct _.
+  apply safe_bind; [apply b64d_safe|]. intros tag _.
+  apply safe_bind; [apply b64d_safe|]. intros ek _.
+  destruct (recipient_headers_dict false pd PNone PNone eq_refl eq_refl) as [hd Eh]. rewrite Eh.
+  apply safe_bind; [apply guess_key_safe|]. intros k _.
+  apply safe_bind; [apply check_use_safe|]. intros _ _.
+  apply safe_bind; [|intros; exact I].
+  eapply perform_decrypt_safe; eauto; cbn; [reflexivity|].
+  constructor; [|constructor]. split; [reflexivity | eexists; reflexivity].
+Qed.
+
+Theorem jwe_decrypt_compact_safe g reg ka v :
+  needs_jwe_compact g = true -> jwe_reg_wf2 reg = true -> safe (jwe_decrypt_compact g P reg ka v).
+Proof.
+  intros N W. unfold jwe_decrypt_compact. apply safe_bind; [apply cinput_bytes_safe|].
+  intros b _. apply jwe_decrypt_compact_b_safe; assumption.
+Qed.
+
+Theorem jwt_decode_jwe_safe g reg ka v :
+  needs_jwe_compact g = true -> g_rec_claims g = true -> jwe_reg_wf2 reg = true ->
+  safe (jwt_decode_jwe g P reg ka v).
+Proof.
+  intros N G W. unfold jwt_decode_jwe. apply safe_bind; [apply cinput_bytes_safe|]. intros b _.
+  apply safe_bind; [apply jwe_decrypt_compact_b_safe; assumption|]. intros r _.
+  apply safe_bind; [apply decode_claims_safe; assumption|]. intros c _. exact I.
+Qed.
+
+(* ---------------- JWE JSON serialization ---------------- *)
+Lemma seg_of_safe d k v : dget d (SK k) = Some v -> is_str v = true -> safe (seg_of (PDict d) k).
+Proof.
+  intros D IS. unfold seg_of. rewrite (getitem_of_dget _ _ _ D). cbn [bind]. destruct v; try discriminate.
+  apply safe_bind; [apply to_bytes_str_safe|]. intros b _.
+  apply safe_bind; [apply b64d_safe|]. intros x _. exact I.
+Qed.
+
+Lemma seg_of_req d k : req_is d k is_str = true -> safe (seg_of (PDict d) k).
+Proof. intro R. destruct (req_is_get _ _ _ R) as [v [D IS]]. eapply seg_of_safe; eauto. Qed.
+
+Definition rl_ok (x : pv * option bytes) : Prop := hdr_ok (fst x) = true /\ exists b, snd x = Some b.
+
+Lemma extract_recipient_spec g item :
+  g_ek_default g = true -> jwe_recipient_shape item = true ->
+  match extract_recipient g item with Ok x => rl_ok x | Err e => allowed_exn e = true end.
+Proof.
+  intros G Sh. destruct item as [| | | | | |l|d]; try discriminate. cbn [jwe_recipient_shape] in Sh.
+  apply andb_true_iff in Sh. destruct Sh as [Oh Oe].
+  unfold extract_recipient.
+  assert (Hh : exists h, py_get_str (PDict d) (SK "header") = Ok h /\ hdr_ok h = true).
+  { cbn [py_get_str]. destruct (dget d (SK "header")) as [h|] eqn:Dh; [|eauto].
+    exists h. split; [reflexivity|]. apply is_dict_hdr_ok. eapply opt_is_get; eauto. }
+  destruct Hh as [h [Eh Hh]]. rewrite Eh. cbn [bind]. rewrite py_in_dict. cbn [bind].
+  destruct (dmem d (SK "encrypted_key")) eqn:M.
+  - destruct (getitem_dict_mem _ _ M) as [v [Gv Dv]]. rewrite Gv. cbn [bind].
+    pose proof (opt_is_get _ _ _ _ Oe Dv) as IS. destruct v; try discriminate.
+    pose proof (to_bytes_str_safe false s) as T.
+    destruct (to_bytes false (PStr s)) as [b|e]; cbn [bind]; [|exact T].
+    pose proof (b64d_safe b) as B. destruct (b64d b) as [ek|e]; cbn [bind]; [|exact B].
+    split; [exact Hh | eexists; reflexivity].
+  - rewrite G. split; [exact Hh | eexists; reflexivity].
+Qed.
+
+Lemma mapM_recipients g items :
+  g_ek_default g = true -> forallb jwe_recipient_shape items = true ->
+  match mapM (extract_recipient g) items with Ok rl => Forall rl_ok rl | Err e => allowed_exn e = true end.
+Proof.
+  intro G. induction items as [|x r IH]; intro F; [constructor|].
+  cbn [forallb] in F. apply andb_true_iff in F. destruct F as [Fx Fr]. cbn [mapM].
+  pose proof (extract_recipient_spec g x G Fx) as Sx.
+  destruct (extract_recipient g x) as [y|e]; cbn [bind]; [|exact Sx].
+  specialize (IH Fr). destruct (mapM (extract_recipient g) r) as [t|e]; cbn [bind]; [|exact IH].
+  constructor; assumption.
+Qed.
+
+Lemma attach_keys_spec ka pd u rl :
+  hdr_ok u = true -> Forall rl_ok rl ->
+  match attach_keys true ka (PDict pd) u rl with Ok recs => Forall rec_ok recs | Err e => allowed_exn e = true end.
+Proof.
+  intros U F. induction F as [|[h ek] r [Hh [b Eb]] F IH]; [constructor|].
+  cbn [attach_keys]. cbn [fst snd] in Hh, Eb.
+  destruct (recipient_headers_dict true pd u h U Hh) as [d Ed]. rewrite Ed.
+  pose proof (guess_key_safe ka d) as GK. destruct (guess_key ka (Ok (PDict d))) as [k|e]; cbn [bind]; [|exact GK].
+  pose proof (check_use_safe k "enc") as CU. destruct (check_use k "enc") as [[]|e]; cbn [bind]; [|exact CU].
+  destruct (attach_keys true ka (PDict pd) u r) as [t|e]; cbn [bind]; [|exact IH].
+  constructor; [|exact IH]. split; [exact Hh | subst; eexists; reflexivity].
+Qed.
+
+Definition needs_jwe_json (g : guards) : bool :=
+  needs_jwe_core g && g_rec_header g && g_dict_jwe_json g && g_ek_default g.
+
+Theorem jwe_decrypt_json_safe g reg ka data :
+  needs_jwe_json g = true -> jwe_reg_wf2 reg = true -> jwe_documented_shape data = true ->
+  safe (jwe_decrypt_json g P reg ka data).
+Proof.
+  intros N W Sh. apply andb_true_iff in N. destruct N as [N Ge]. apply andb_true_iff in N. destruct N as [N Gd].
+  apply andb_true_iff in N. destruct N as [N Gr].
+  destruct data as [| | | | | |l0|d]; try discriminate. cbn [jwe_documented_shape] in Sh.
+  repeat (apply andb_true_iff in Sh; destruct Sh as [Sh ?]).
+  unfold jwe_decrypt_json. rewrite py_in_dict. cbn [bind].
+  destruct (req_is_get _ _ _ Sh) as [pseg0 [Dp ISp]]. rewrite (getitem_of_dget _ _ _ Dp). cbn [bind].
+  pose proof (json_b64decode_only g pseg0 Gr (or_introl ISp)) as J.
+  destruct (json_b64decode g P pseg0) as [p|e]; cbn [bind]; [|rewrite (J e eq_refl); reflexivity].
+  rewrite Gd. destruct p as [| | | | | |pl|pd]; cbn [is_dict negb andb bind]; try reflexivity.
+  assert (Hu : exists u, py_get_str (PDict d) (SK "unprotected") = Ok u /\ hdr_ok u = true).
+  { cbn [py_get_str]. destruct (dget d (SK "unprotected")) as [u|] eqn:Du; [|eauto].
+    exists u. split; [reflexivity|]. apply is_dict_hdr_ok. eapply opt_is_get; eauto. }
+  destruct Hu as [u [Eu Hu]]. rewrite Eu. cbn [bind].
+  destruct pseg0; try discriminate.
+  apply safe_bind; [apply to_bytes_str_safe|]. intros pseg _.
+  apply safe_bind; [apply seg_of_req; assumption|]. intros iv _.
+  apply safe_bind; [apply seg_of_req; assumption|]. intros ct _.
+  apply safe_bind; [apply seg_of_req; assumption|]. intros tag _.
+  rewrite py_in_dict. cbn [bind].
+  apply safe_bind.
+  { destruct (dmem d (SK "aad")) eqn:Ma; [|exact I].
+    destruct (getitem_dict_mem _ _ Ma) as [av [_ Da]].
+    apply safe_bind; [eapply seg_of_safe; [exact Da | eapply opt_is_get; eauto]|]. intros a _. exact I. }
+  intros aad _.
+  assert (X : match (if dmem d (SK "recipients")
+                     then do rs <- py_getitem_str (PDict d) (SK "recipients"); py_iter rs
+                     else Ok [PDict d]) with
+              | Ok items => forallb jwe_recipient_shape items = true
+              | Err e => allowed_exn e = true end).
+  { destruct (dmem d (SK "recipients")) eqn:Mr.
+    - destruct (req_is_get _ _ _ H) as [rs [Dr Lr]]. rewrite (getitem_of_dget _ _ _ Dr). cbn [bind].
+      destruct rs; try discriminate. cbn [py_iter]. exact Lr.
+    - cbn [forallb]. rewrite H. reflexivity. }
+  clear H.
+  destruct (if dmem d (SK "recipients") then _ else _) as [items|e]; cbn [bind]; [|exact X].
+  pose proof (mapM_recipients g items Ge X) as MR.
+  destruct (mapM (extract_recipient g) items) as [rl|e]; cbn [bind]; [|exact MR].
+  pose proof (attach_keys_spec ka pd u rl Hu MR) as AK.
+  destruct (attach_keys true ka (PDict pd) u rl) as [recs|e]; cbn [bind]; [|exact AK].
+  apply perform_decrypt_safe with (pd := pd); [exact N | exact W | reflexivity | exact Hu | exact AK].
+Qed.
+
+End WithPrims.
